@@ -45,7 +45,8 @@ fn install_panic_hook() {
         };
         if tokio::sim::current_task().is_some() {
             // a panic inside a simulated task is part of the simulated behaviour
-            world::log(world::EvKind::Panic { msg: world::normalise_ids(&msg) });
+            let op = world::try_with(|w| w.cur_op).flatten();
+            world::log(world::EvKind::Panic { msg: world::normalise_ids(&msg), op });
         } else if msg.contains("Mailbox capacity must be greater than 0") {
             // spawn_with_mailbox_capacity(0) in the root future: caught and logged by exec
         } else {
@@ -89,17 +90,102 @@ pub struct Judged {
     pub checked: monitors::Checked,
 }
 
+fn monitors_for(prop: &str, sc: &Scenario, res: &RunResult) -> (Vec<Violation>, monitors::Checked) {
+    let h = history::History::build(sc, res, DEFAULT_CAP);
+    let (mut v, mut chk) = monitors::run_all(&h);
+    profiles::extra_monitors(prop, &h, &mut v, &mut chk);
+    (v, chk)
+}
+
+/// canonical per-event hashes: independent of feature-only bookkeeping events and of the routing label
+pub fn canon_hashes(r: &RunResult, keep_via: bool) -> Vec<(u64, u64)> {
+    let mut out = Vec::with_capacity(r.log.len());
+    for e in &r.log {
+        let k = match &e.k {
+            world::EvKind::DlCount { .. } | world::EvKind::Graph { .. } => continue,
+            world::EvKind::Inv { who, k, op, a, mid, ms, via, budget } => world::EvKind::Inv { who: *who, k: *k, op: *op, a: *a, mid: *mid, ms: *ms, via: if keep_via { via.clone() } else { String::new() }, budget: *budget },
+            other => other.clone(),
+        };
+        out.push((e.step, h64(&(e.t, e.step, e.task, &k))));
+    }
+    out
+}
+
+/// Lock-step comparison of two runs of the same scenario under the same decision list.
+/// Returns Err(text) when an observable difference occurs while the ready sets still agree,
+/// Ok(true) when the runs are identical, Ok(false) when they are incomparable (ready sets diverged first).
+pub fn lockstep(a: &RunResult, a_h: &[(u64, u64)], b: &RunResult, b_h: &[(u64, u64)], ready_a: &[u32], ready_b: &[u32]) -> Result<bool, (u64, String)> {
+    let _ = (a, b);
+    let n = ready_a.len().min(ready_b.len());
+    let mut d_ready = (0..n).find(|i| ready_a[*i] != ready_b[*i]).map(|i| i as u64);
+    if d_ready.is_none() && ready_a.len() != ready_b.len() {
+        d_ready = Some(n as u64);
+    }
+    let m = a_h.len().min(b_h.len());
+    let d_log = (0..m).find(|i| a_h[*i] != b_h[*i]).or(if a_h.len() != b_h.len() { Some(m) } else { None });
+    match d_log {
+        None => Ok(d_ready.is_none()),
+        Some(i) => {
+            let step = a_h.get(i).map(|x| x.0).unwrap_or(u64::MAX).min(b_h.get(i).map(|x| x.0).unwrap_or(u64::MAX));
+            // events of step s (1-based) were produced by decision s-1; the ready sets are known equal
+            // for every decision < d_ready
+            match d_ready {
+                Some(d) if step > d => Ok(false),
+                _ => Err((step, format!("histories differ at canonical event {i} (poll {step}) while the ready sets of both runs still agreed"))),
+            }
+        }
+    }
+}
+
 /// Execute and judge one (scenario, schedule).
 pub fn judge(prop: &str, sc: &Scenario, cfg: &SchedCfg) -> Judged {
+    if prop == "C16" {
+        return judge_c16(sc, cfg);
+    }
     let res = exec::execute(sc, cfg);
-    let (violations, checked) = {
-        let h = history::History::build(sc, &res, DEFAULT_CAP);
-        let (mut v, mut chk) = monitors::run_all(&h);
-        profiles::extra_monitors(prop, &h, &mut v, &mut chk);
-        (v, chk)
-    };
+    let (violations, checked) = monitors_for(prop, sc, &res);
     let violations = profiles::select(prop, violations);
     Judged { res, violations, checked }
+}
+
+/// C16: the same scenario run on direct references and run with every operation routed through an
+/// arbitrarily chosen type-erased wrapper, under the same decision list.
+fn judge_c16(sc: &Scenario, cfg: &SchedCfg) -> Judged {
+    let mut direct_sc = sc.clone();
+    direct_sc.erase = None;
+    let mut erased_sc = sc.clone();
+    if erased_sc.erase.is_none() {
+        erased_sc.erase = Some(cfg.seed ^ 0xE7A5_ED00_1234_0001);
+    }
+    let mut dcfg = cfg.clone();
+    dcfg.replay = None;
+    let direct = exec::execute(&direct_sc, &dcfg);
+    let mut ecfg = cfg.clone();
+    ecfg.replay = Some(direct.rep.decisions.clone());
+    let erased = exec::execute(&erased_sc, &ecfg);
+    let (v, mut chk) = monitors_for("C16", &erased_sc, &erased);
+    let mut violations = profiles::select("C16", v);
+    let (dh, eh) = (canon_hashes(&direct, false), canon_hashes(&erased, false));
+    if !direct.inconclusive() && !erased.inconclusive() {
+        match lockstep(&direct, &dh, &erased, &eh, &direct.rep.ready_hashes, &erased.rep.ready_hashes) {
+            Ok(true) => {
+                chk.hit("C16");
+            }
+            Ok(false) => {
+                chk.hit("C16-incomparable");
+            }
+            Err((step, why)) => {
+                chk.hit("C16");
+                // show both sides of the first difference
+                let i = (0..dh.len().min(eh.len())).find(|i| dh[*i] != eh[*i]).unwrap_or(dh.len().min(eh.len()));
+                let dl: Vec<&world::Ev> = direct.log.iter().filter(|e| !matches!(e.k, world::EvKind::DlCount { .. } | world::EvKind::Graph { .. })).collect();
+                let el: Vec<&world::Ev> = erased.log.iter().filter(|e| !matches!(e.k, world::EvKind::DlCount { .. } | world::EvKind::Graph { .. })).collect();
+                let text = format!("{why}: direct run has {:?}, erased run has {:?}", dl.get(i).map(|e| &e.k), el.get(i).map(|e| &e.k));
+                violations.push(Violation { prop: "C16".into(), sig: "differential".into(), text, seq: step });
+            }
+        }
+    }
+    Judged { res: erased, violations, checked: chk }
 }
 
 #[derive(Serialize, Deserialize)]
@@ -156,7 +242,7 @@ fn count_faults(sc: &Scenario, r: &RunResult, st: &mut Stats) {
     let mut last_drop = 0;
     for e in &r.log {
         match &e.k {
-            EvKind::Panic { msg } => {
+            EvKind::Panic { msg, .. } => {
                 if msg.contains("Deadlock detected") {
                     inc("deadlock_panic", 1)
                 } else {
@@ -225,12 +311,12 @@ fn cmd_run(args: &[String]) -> i32 {
     let mut seen_sigs: BTreeSet<String> = BTreeSet::new();
     let mut i = shard;
     'outer: while i < scenarios {
-        let sseed = mix(seed, i);
+        let sseed = profiles::scenario_seed(&prop, seed, i);
         let (family, sc) = profiles::scenario(&prop, &tier, sseed, i);
         st.scenarios += 1;
         *st.families.entry(family.to_string()).or_insert(0) += 1;
         for j in 0..scheds {
-            let cfg = gen::gen_sched(mix(sseed, 1000 + j));
+            let cfg = gen::gen_sched(mix(mix(seed, i), 1000 + j));
             let jd = judge(&prop, &sc, &cfg);
             st.evaluations += 1;
             *st.strategies.entry(cfg.strategy.name().to_string()).or_insert(0) += 1;
@@ -346,9 +432,9 @@ fn cmd_determinism(args: &[String]) -> i32 {
     let mut bad = 0;
     let mut i = shard;
     while i < n {
-        let sseed = mix(seed, i);
+        let sseed = profiles::scenario_seed(&prop, seed, i);
         let (_, sc) = profiles::scenario(&prop, "quick", sseed, i);
-        let cfg = gen::gen_sched(mix(sseed, 1000));
+        let cfg = gen::gen_sched(mix(mix(seed, i), 1000));
         let a = exec::execute(&sc, &cfg);
         let b = exec::execute(&sc, &cfg);
         let burn = a.probes.burn_used;
@@ -372,15 +458,158 @@ fn cmd_determinism(args: &[String]) -> i32 {
     }
 }
 
+/// C18, default-feature side: execute every (scenario, schedule) and stream one line per run with the
+/// decision list, the ready-set hashes and the canonical per-event hashes.
+fn cmd_record(args: &[String]) -> i32 {
+    use std::io::Write;
+    let prop = arg(args, "--prop").unwrap_or("C18").to_string();
+    let tier = arg(args, "--tier").unwrap_or("quick").to_string();
+    let seed: u64 = arg(args, "--seed").and_then(|s| s.parse().ok()).unwrap_or(20260101);
+    let shard: u64 = arg(args, "--shard").and_then(|s| s.parse().ok()).unwrap_or(0);
+    let nshards: u64 = arg(args, "--nshards").and_then(|s| s.parse().ok()).unwrap_or(1);
+    let scenarios: u64 = arg(args, "--scenarios").and_then(|s| s.parse().ok()).unwrap_or_else(|| profiles::budget(&prop, &tier).0);
+    let scheds: u64 = arg(args, "--schedules").and_then(|s| s.parse().ok()).unwrap_or_else(|| profiles::budget(&prop, &tier).1);
+    let out = std::io::stdout();
+    let mut out = std::io::BufWriter::new(out.lock());
+    let mut i = shard;
+    while i < scenarios {
+        let sseed = profiles::scenario_seed(&prop, seed, i);
+        let (_, sc) = profiles::scenario(&prop, &tier, sseed, i);
+        for j in 0..scheds {
+            let cfg = gen::gen_sched(mix(mix(seed, i), 1000 + j));
+            let r = exec::execute(&sc, &cfg);
+            let ch = canon_hashes(&r, true);
+            let line = serde_json::json!({"i": i, "j": j, "inconclusive": r.inconclusive(), "decisions": r.rep.decisions, "ready": r.rep.ready_hashes, "ev": ch});
+            if writeln!(out, "{line}").is_err() {
+                return 0;
+            }
+        }
+        i += nshards;
+    }
+    0
+}
+
+/// C18, feature-build side: read the default build's records from stdin, replay each decision list on
+/// the same scenario in this build, compare in lock-step, run every monitor.
+fn cmd_compare(args: &[String]) -> i32 {
+    use std::io::BufRead;
+    let prop = arg(args, "--prop").unwrap_or("C18").to_string();
+    let tier = arg(args, "--tier").unwrap_or("quick").to_string();
+    let seed: u64 = arg(args, "--seed").and_then(|s| s.parse().ok()).unwrap_or(20260101);
+    let out = arg(args, "--out").unwrap_or("/dev/stdout").to_string();
+    let replay_dir = arg(args, "--replay-dir").unwrap_or("../replays").to_string();
+    let t0 = std::time::Instant::now();
+    let mut st = Stats { property: prop.clone(), tier: tier.clone(), seed, features: features().iter().map(|s| s.to_string()).collect(), ..Default::default() };
+    let mut fps: BTreeSet<u64> = BTreeSet::new();
+    let mut identical = 0u64;
+    let mut incomparable = 0u64;
+    let mut seen_sigs: BTreeSet<String> = BTreeSet::new();
+    let stdin = std::io::stdin();
+    for line in stdin.lock().lines() {
+        let line = match line {
+            Ok(l) => l,
+            Err(_) => break,
+        };
+        let rec: serde_json::Value = match serde_json::from_str(&line) {
+            Ok(v) => v,
+            Err(_) => continue,
+        };
+        let i = rec["i"].as_u64().unwrap();
+        let j = rec["j"].as_u64().unwrap();
+        let decisions: Vec<u32> = serde_json::from_value(rec["decisions"].clone()).unwrap();
+        let ready: Vec<u32> = serde_json::from_value(rec["ready"].clone()).unwrap();
+        let evh: Vec<(u64, u64)> = serde_json::from_value(rec["ev"].clone()).unwrap();
+        let sseed = profiles::scenario_seed(&prop, seed, i);
+        let (family, sc) = profiles::scenario(&prop, &tier, sseed, i);
+        let mut cfg = gen::gen_sched(mix(mix(seed, i), 1000 + j));
+        cfg.replay = Some(decisions);
+        let res = exec::execute(&sc, &cfg);
+        st.evaluations += 1;
+        if j == 0 {
+            st.scenarios += 1;
+            *st.families.entry(family.to_string()).or_insert(0) += 1;
+        }
+        *st.strategies.entry(cfg.strategy.name().to_string()).or_insert(0) += 1;
+        st.decisions_total += res.rep.steps;
+        let (v, mut chk) = monitors_for(&prop, &sc, &res);
+        let mut violations = profiles::select(&prop, v);
+        let mine = canon_hashes(&res, true);
+        let inconcl = res.inconclusive() || rec["inconclusive"].as_bool().unwrap_or(false);
+        if inconcl {
+            st.inconclusive += 1;
+        } else {
+            match lockstep(&res, &evh, &res, &mine, &ready, &res.rep.ready_hashes) {
+                Ok(true) => {
+                    identical += 1;
+                    chk.hit("C18");
+                }
+                Ok(false) => incomparable += 1,
+                Err((step, why)) => {
+                    chk.hit("C18");
+                    let idx = (0..evh.len().min(mine.len())).find(|x| evh[*x] != mine[*x]).unwrap_or(evh.len().min(mine.len()));
+                    let el: Vec<&world::Ev> = res.log.iter().filter(|e| !matches!(e.k, world::EvKind::DlCount { .. } | world::EvKind::Graph { .. })).collect();
+                    let text = format!("features {:?} vs default: {why}; this build logged {:?} there", features(), el.get(idx).map(|e| &e.k));
+                    violations.push(Violation { prop: prop.clone(), sig: "differential".into(), text, seq: step });
+                }
+            }
+        }
+        for (k, v) in &chk.0 {
+            *st.checked.entry(k.to_string()).or_insert(0) += v;
+        }
+        count_faults(&sc, &res, &mut st);
+        if chk.get("C18") > 0 {
+            st.nontrivial += 1;
+            fps.insert(h64(&(&res.rep.decisions, order_fp(&res))));
+        }
+        if st.samples.len() < 2 && chk.get("C18") > 0 {
+            st.samples.push(serde_json::json!({"family": family, "run_index": i, "schedule_index": j, "scenario": sc, "decisions": res.rep.decisions, "features": features(), "canonical_events_compared": mine.len()}));
+        }
+        if let Some(v0) = violations.first() {
+            let key = format!("{}:{}", v0.prop, v0.sig);
+            if seen_sigs.insert(key) {
+                let rf = ReplayFile {
+                    property: prop.clone(),
+                    signature: v0.sig.clone(),
+                    engine: "S".into(),
+                    features: features().iter().map(|s| s.to_string()).collect(),
+                    seed,
+                    run_index: i,
+                    scenario: sc.clone(),
+                    sched: cfg.clone(),
+                    violation: v0.clone(),
+                    log_digest: format!("{:016x}", log_digest(&res)),
+                    minimised: false,
+                    history: res.log.clone(),
+                };
+                let path = write_replay(&replay_dir, &rf);
+                st.violations.push(serde_json::json!({"violation": v0, "replay": path}));
+                if st.violations.len() >= 3 {
+                    break;
+                }
+            }
+        }
+    }
+    st.wall_s = t0.elapsed().as_secs_f64();
+    st.extra.insert("distinct_fps".into(), serde_json::json!(fps.iter().map(|x| format!("{x:016x}")).collect::<Vec<_>>()));
+    st.extra.insert("pairs_identical".into(), serde_json::json!(identical));
+    st.extra.insert("pairs_incomparable".into(), serde_json::json!(incomparable));
+    std::fs::write(&out, serde_json::to_string(&st).unwrap()).expect("write stats");
+    if st.violations.is_empty() {
+        0
+    } else {
+        1
+    }
+}
+
 fn cmd_show(args: &[String]) -> i32 {
     let prop = arg(args, "--prop").unwrap_or("C01").to_string();
     let seed: u64 = arg(args, "--seed").and_then(|s| s.parse().ok()).unwrap_or(20260101);
     let i: u64 = arg(args, "--index").and_then(|s| s.parse().ok()).unwrap_or(0);
     let j: u64 = arg(args, "--sched").and_then(|s| s.parse().ok()).unwrap_or(0);
     let tier = arg(args, "--tier").unwrap_or("quick").to_string();
-    let sseed = mix(seed, i);
+    let sseed = profiles::scenario_seed(&prop, seed, i);
     let (family, sc) = profiles::scenario(&prop, &tier, sseed, i);
-    let cfg = gen::gen_sched(mix(sseed, 1000 + j));
+    let cfg = gen::gen_sched(mix(mix(seed, i), 1000 + j));
     println!("family {family}\nscenario {}\nsched {}", serde_json::to_string(&sc).unwrap(), serde_json::to_string(&cfg).unwrap());
     let jd = judge(&prop, &sc, &cfg);
     for e in &jd.res.log {
@@ -402,6 +631,8 @@ fn main() {
         Some("replay") => cmd_replay(&args[1..]),
         Some("determinism") => cmd_determinism(&args[1..]),
         Some("show") => cmd_show(&args[1..]),
+        Some("record") => cmd_record(&args[1..]),
+        Some("compare") => cmd_compare(&args[1..]),
         Some("features") => {
             println!("{}", features().join(","));
             0
